@@ -3,11 +3,11 @@
 # Prints "<id> rc=<rc>" per check; rc=1 means the check caught the change.
 P=$(readlink -f "$1"); shift
 cd /repo || exit 2
-if ! git diff --quiet; then echo "/repo has uncommitted changes"; exit 2; fi
-if ! git apply "$P" 2>/dev/null && ! git apply -3 "$P" 2>/dev/null; then echo "patch does not apply"; git checkout -- . ; exit 3; fi
+if ! git diff --quiet || ! git diff --cached --quiet; then echo "/repo has uncommitted changes"; exit 2; fi
+if ! git apply "$P" 2>/dev/null && ! git apply -3 "$P" 2>/dev/null; then echo "patch does not apply"; git reset -q --hard HEAD; exit 3; fi
 cd /verif
 for id in "$@"; do
   out=$(VERIF_SEED=${VERIF_SEED:-1} ./check $id ${TIER:-quick} 2>&1); rc=$?
   echo "$id rc=$rc :: $(echo "$out" | grep -m2 -E 'violation |BUILD FAILED|HARNESS' | tr '\n' ' ' | cut -c1-300)"
 done
-git -C /repo checkout -- . ; git -C /repo status --short | head -3
+git -C /repo reset -q --hard HEAD; git -C /repo status --short | head -3
